@@ -868,16 +868,14 @@ def n4(e: Engine, rep: Report, K: Kinds):
                     isinstance(s2.ast.targets[0], ast.Name):
                 flagdefs.setdefault(path_of(s2.ast.targets[0], s2.frame),
                                     []).append(s2)
-        for n in g.of_kind('stmt'):
-            if not isinstance(n.ast, ast.Raise) or fx.at(n) is None:
-                continue
-            toks = [l[1] for l, s in n.succ if isinstance(l, tuple)]
-            st = set(fx.at(n))
-            frames = {x.frame.id: x.frame for x in g.nodes}
+        frames = {x.frame.id: x.frame for x in g.nodes}
+
+        def expand(st):
             for _ in range(3):
                 for pp, k in list(st):
                     nm, _h, fid = k.rpartition('#')
-                    fr = frames.get(int(fid)) if fid.isdigit() and nm.isidentifier() else None
+                    fr = frames.get(int(fid)) if fid.isdigit() and \
+                        nm.isidentifier() else None
                     try:
                         if fr is not None and nm in getattr(
                                 fr, 'arg_exprs', {}):
@@ -902,6 +900,9 @@ def n4(e: Engine, rep: Report, K: Kinds):
                                                         ds[0].frame))
                     except Exception:
                         pass
+            return st
+
+        def judge(toks, st, n):
             for t in toks:
                 rep.evaluations += 1
                 if p.is_subclass(t, TRANS):
@@ -931,6 +932,43 @@ def n4(e: Engine, rep: Report, K: Kinds):
                               'PermanentRelayError is raised outside its '
                               'condition (%s)' % cond, loc=n.loc(),
                               reason='guard dominates')
+        for n in g.of_kind('stmt'):
+            if not isinstance(n.ast, ast.Raise) or fx.at(n) is None:
+                continue
+            toks = [l[1] for l, s in n.succ if isinstance(l, tuple)]
+            exc = n.ast.exc
+            if isinstance(exc, ast.Call) and isinstance(exc.func, ast.Name) \
+                    and not any(p.is_subclass(t, TRANS) or
+                                p.is_subclass(t, PERM) for t in toks):
+                # `raise error_class(...)` with the class picked per branch
+                # (`code, error_class = '550', PermanentRelayError`): each
+                # choice is judged where it is made
+                vq = path_of(exc.func, n.frame)
+                picked = []
+                for d in common.reaching_defs(g, n, vq):
+                    if d is None or not isinstance(d.ast, ast.Assign) or \
+                            len(d.ast.targets) != 1:
+                        picked = None
+                        break
+                    tg, vv = d.ast.targets[0], d.ast.value
+                    if isinstance(tg, (ast.Tuple, ast.List)) and \
+                            isinstance(vv, (ast.Tuple, ast.List)) and \
+                            len(tg.elts) == len(vv.elts):
+                        for t0, v0 in zip(tg.elts, vv.elts):
+                            if path_of(t0, d.frame) == vq:
+                                vv = v0
+                    q = p.resolve_expr_qname(d.frame.ctx.func.module, vv) \
+                        if isinstance(vv, (ast.Name, ast.Attribute)) \
+                        else None
+                    if q is None or fx.at(d) is None:
+                        picked = None
+                        break
+                    picked.append((q, d))
+                if picked:
+                    for q, d in picked:
+                        judge([q], expand(set(fx.at(d))), d)
+                    continue
+            judge(toks, expand(set(fx.at(n))), n)
         # raise_error raises on every path
         rep.evaluations += 1
         reach_exit = g.exit.id in dataflow.reachable(
